@@ -49,7 +49,7 @@ M('herm-init-keeps-opcount', 'C05', 'counter-identity',
         // Initialize the Lanczos''')],
   'operation count accumulates across init() calls')
 M('gen-eigenvectors-no-clamp', 'C05', 'accessor-agreement',
-  [('GenEigsBase.h', '''        nvec = (std::min)(nvec, nconv);
+  [('GenEigsBase.h', '''        nvec = (std::max)(Index(0), (std::min)(nvec, nconv));
         ComplexMatrix res(m_n, nvec);''', '''        ComplexMatrix res(m_n, nvec);''')])
 M('herm-status-strict', 'C05', 'exit-status-and-count',
   [('HermEigsBase.h', 'm_info = (nconv >= m_nev) ? CompInfo::Successful : CompInfo::NotConverging;', 'm_info = (nconv > m_nev) ? CompInfo::Successful : CompInfo::NotConverging;')])
@@ -144,6 +144,9 @@ M('svd-raw-new', 'C14,C12', 'no-raw-owning-pointer',
 M('herm-ctor-nev-off-by-one', 'C12', 'range-guard-equals-documented-range',
   [('HermEigsBase.h', """        m_info(CompInfo::NotComputed)
     {
+        if (m_op.rows() != m_op.cols())
+            throw std::invalid_argument("the matrix operation must represent a square matrix");
+
         if (nev < 1 || nev > m_n - 1)
             throw std::invalid_argument("nev must satisfy 1 <= nev <= n - 1, n is the size of matrix");
 
@@ -433,6 +436,9 @@ N('herm-refresh-under-if', 'C01,C05', [('HermEigsBase.h', """        nconv = num
         // Sorting results""")], 'F1 written conditionally: after break the flags are already fresh (needs FEAS)')
 N('herm-ctor-nev-ge-n', 'C12', [('HermEigsBase.h', """        m_info(CompInfo::NotComputed)
     {
+        if (m_op.rows() != m_op.cols())
+            throw std::invalid_argument("the matrix operation must represent a square matrix");
+
         if (nev < 1 || nev > m_n - 1)
             throw std::invalid_argument("nev must satisfy 1 <= nev <= n - 1, n is the size of matrix");
 
@@ -442,6 +448,9 @@ N('herm-ctor-nev-ge-n', 'C12', [('HermEigsBase.h', """        m_info(CompInfo::N
 
     // If op is an rvalue""", """        m_info(CompInfo::NotComputed)
     {
+        if (m_op.rows() != m_op.cols())
+            throw std::invalid_argument("the matrix operation must represent a square matrix");
+
         if (!(nev >= 1) || nev >= m_n)
             throw std::invalid_argument("nev must satisfy 1 <= nev <= n - 1, n is the size of matrix");
 
@@ -602,7 +611,7 @@ M('ds-last-reflector-index', 'C08', 'reflector-defined-before-applied',
 M('ds-applyQtY-reversed-index', 'C08', 'reflector-order-and-offsets',
   [(D, 'apply_PX(y_ptr, i);', 'apply_PX(y_ptr, n1 - 1 - i);')])
 M('ds-applyYQ-last-block-index', 'C08', 'reflector-order-and-offsets',
-  [(D, 'apply_XP(Y.block(0, n2, nrow, 2), nrow, n2);', 'apply_XP(Y.block(0, n2, nrow, 2), nrow, n2 - 1);')])
+  [(D, 'apply_XP(Y.block(0, n2, nrow, 2), stride, n2);', 'apply_XP(Y.block(0, n2, nrow, 2), stride, n2 - 1);')])
 N('ds-formulas-rewritten', 'C08',
   [(D, 'const Scalar m00 = x00 * (x00 - m_shift_s) + x01 * x10 + m_shift_t;', 'const Scalar m00 = x00 * x00 - m_shift_s * x00 + x10 * x01 + m_shift_t;'),
    (D, 'X2[i] -= tmp * u2;', 'X2[i] -= u2 * tmp;'),
@@ -641,14 +650,12 @@ N('schur-guards-rewritten', 'C13',
             m_T.coeffRef(iu - 1, iu - 2) = Scalar(0);'''),
    (S_, 'for (Index i = im + 2; i <= iu; ++i)', 'for (Index i = im + 2; i < iu + 1; ++i)')], 'same ranges')
 
-N('svd-derived-factor-multiplied-by-reciprocal', 'C16',
-  [('contrib/PartialSVDSolver.h', "return m_mat * (m_evecs.leftCols(nu).array().rowwise() / (m_eigs->eigenvalues().head(nu).transpose().array().sqrt() * m_op->scale())).matrix();",
-    "return m_mat * (m_evecs.leftCols(nu).array().rowwise() * (m_eigs->eigenvalues().head(nu).transpose().array().sqrt() * m_op->scale()).inverse()).matrix();")],
-  'multiplication by 1/(s sqrt(lambda)) instead of division: same values')
+N('svd-derived-factor-reciprocal-via-array', 'C16',
+  [('contrib/PartialSVDSolver.h', "return (svals.array() > Scalar(0)).select(svals.cwiseInverse(), Vector::Zero(k));", "return (svals.array() > Scalar(0)).select(svals.array().inverse().matrix(), Vector::Zero(k));")],
+  'the same reciprocal through the array interface')
 M('svd-derived-factor-relative-floor-missing-sqrt', 'C16', 'shape-predicates-agree',
-  [('contrib/PartialSVDSolver.h', "return m_mat.transpose() * (m_evecs.leftCols(nv).array().rowwise() / (m_eigs->eigenvalues().head(nv).transpose().array().sqrt() * m_op->scale())).matrix();",
-    "return m_mat.transpose() * (m_evecs.leftCols(nv).array().rowwise() / (m_eigs->eigenvalues().head(nv).transpose().array() * m_op->scale())).matrix();")],
-  'V scaled by 1/lambda instead of 1/sigma')
+  [('contrib/PartialSVDSolver.h', "const Vector svals = m_eigs->eigenvalues().head(k).cwiseMax(Scalar(0)).cwiseSqrt() * m_op->scale();", "const Vector svals = m_eigs->eigenvalues().head(k).cwiseMax(Scalar(0)) * m_op->scale();")],
+  'U and V scaled by 1/lambda instead of 1/sigma')
 
 B_ = 'LinAlg/BKLDLT.h'
 M('bkldlt-lambda-scan-includes-end', 'C13', 'packed-storage-index-contracts',
@@ -804,6 +811,9 @@ N('svd-ctor-takes-matrixbase-like-the-wrappers', 'C16', [('contrib/PartialSVDSol
 M('herm-ctor-preallocates-ritz-values-before-guards', 'C12', 'no-allocation-sized-by-unvalidated-argument',
   [('HermEigsBase.h', """        m_info(CompInfo::NotComputed)
     {
+        if (m_op.rows() != m_op.cols())
+            throw std::invalid_argument("the matrix operation must represent a square matrix");
+
         if (nev < 1 || nev > m_n - 1)
             throw std::invalid_argument("nev must satisfy 1 <= nev <= n - 1, n is the size of matrix");
 
@@ -823,7 +833,7 @@ M('herm-ctor-preallocates-ritz-values-before-guards', 'C12', 'no-allocation-size
 
     // If op is an rvalue""")], 'negative ncv reaches resize() before the range guard: bad_alloc instead of invalid_argument')
 M('gen-ctor-ritz-estimates-in-initialiser-list', 'C12', 'no-allocation-sized-by-unvalidated-argument',
-  [('GenEigsBase.h', "        m_info(CompInfo::NotComputed)\n    {\n        if (nev < 1 || nev > m_n - 2)", "        m_ritz_est(m_ncv),\n        m_info(CompInfo::NotComputed)\n    {\n        if (nev < 1 || nev > m_n - 2)", 'all')],
+  [('GenEigsBase.h', "        m_info(CompInfo::NotComputed)\n    {\n        if (op.rows() != op.cols())\n            throw std::invalid_argument(\"the matrix operation must represent a square matrix\");\n\n        if (nev < 1 || nev > m_n - 2)", "        m_ritz_est(m_ncv),\n        m_info(CompInfo::NotComputed)\n    {\n        if (op.rows() != op.cols())\n            throw std::invalid_argument(\"the matrix operation must represent a square matrix\");\n\n        if (nev < 1 || nev > m_n - 2)", 'all')],
   'sized member construction in the initialiser list')
 N('herm-ctor-preallocates-ritz-values-after-guards', 'C12',
   [('HermEigsBase.h', """            throw std::invalid_argument("ncv must satisfy nev < ncv <= n, n is the size of matrix");
@@ -1003,14 +1013,7 @@ M('arnoldi-init-first-residual-never-checked', 'C07,C02,C01', 'projected-residua
         }
 """, "")], 'reverts fix F27')
 M('arnoldi-step-residual-never-checked', 'C07', 'projected-residual-checked-against-the-basis',
-  [('LinAlg/Arnoldi.h', """            if (m_beta > RealScalar(0.717) * m_op.norm(h))
-                continue;
-
-            // f/||f|| is going to be the next column of V, so we need to test
-            // whether (V^H)B(f/||f||) ~= 0
-            m_op.adjoint_product(Vs, m_fac_f, Vf.head(i1));""", """            continue;
-
-            m_op.adjoint_product(Vs, m_fac_f, Vf.head(i1));""")], 'the orthogonality test of every step is skipped')
+  [('LinAlg/Arnoldi.h', "            m_op.adjoint_product(Vs, m_fac_f, Vf.head(i1));\n            RealScalar ortho_err = Vf.head(i1).cwiseAbs().maxCoeff();", "            continue;\n\n            m_op.adjoint_product(Vs, m_fac_f, Vf.head(i1));\n            RealScalar ortho_err = Vf.head(i1).cwiseAbs().maxCoeff();")], 'the orthogonality test of every step is skipped')
 
 # ----------------------------------------------------------------------------- F28, F29
 M('arnoldi-orthogonality-test-skipped-by-norm-ratio', 'C07', 'projected-residual-checked-against-the-basis',
@@ -1021,7 +1024,7 @@ M('arnoldi-breakdown-threshold-absolute', 'C07,C01', 'residual-thresholds-scale-
 M('lanczos-restart-gate-absolute', 'C07', 'residual-thresholds-scale-with-the-operator',
   [('LinAlg/Lanczos.h', "if (m_beta < eps_sqrt * wscale)", "if (m_beta < eps_sqrt)")], 'reverts fix F29 (Lanczos gate)')
 N('lanczos-breakdown-threshold-uses-sum-of-squares', 'C07',
-  [('LinAlg/Lanczos.h', "if (m_beta < beta_thresh * (abs(m_fac_H(i, i - 1)) + abs(m_fac_H(i, i))))", "if (m_beta < beta_thresh * sqrt(abs(m_fac_H(i, i - 1)) * abs(m_fac_H(i, i - 1)) + abs(m_fac_H(i, i)) * abs(m_fac_H(i, i))))")], 'another degree-1 scale')
+  [('LinAlg/Lanczos.h', "if (m_beta < beta_thresh * hscale)", "if (m_beta < beta_thresh * sqrt(hscale * hscale))")], 'another degree-1 scale')
 
 # ----------------------------------------------------------------------------- F30
 M('arnoldi-init-zero-test-entrywise', 'C03,C07', 'no-direct-reduction-in-factorization',
@@ -1062,6 +1065,19 @@ N('davidson-extension-full-pivoting', 'C15',
    ('LinAlg/SearchSpace.h', "qr.householderQ() * Matrix::Identity(W.rows(), rank);", "qr.matrixQ().leftCols(rank);")], 'another rank-revealing factorization')
 N('davidson-correction-count-from-ritz-values', 'C15',
   [('DavidsonSymEigsSolver.h', "Index(residues.cols()));", "Index(eigvals.size()));")], 'same count from the other array')
+
+# ----------------------------------------------------------------------------- F41 / F42 / K5
+M('davidson-new-directions-by-rank-of-projected-block', 'C15', 'search-space-basis-orthonormal',
+  [('LinAlg/SearchSpace.h', "        Index rank = 0;\n        while (rank < qr.nonzeroPivots() && std::abs(qr.matrixR()(rank, rank)) > new_dir_thresh)\n            rank++;\n", "        qr.setThreshold(new_dir_thresh);\n        const Index rank = qr.rank();\n")], 'reverts fix F41: pivots compared with the largest pivot of the projected block')
+M('davidson-corrections-not-normalised-before-projection', 'C15', 'search-space-basis-orthonormal',
+  [('LinAlg/SearchSpace.h', "            if (wnorm > Scalar(0))\n                W.col(j) /= wnorm;\n", "            (void) wnorm;\n")], 'absolute threshold on unnormalised corrections: the count depends on their scale')
+N('davidson-threshold-carries-the-norm-of-the-corrections', 'C15',
+  [('LinAlg/SearchSpace.h', "            if (wnorm > Scalar(0))\n                W.col(j) /= wnorm;\n", "            (void) wnorm;\n"),
+   ('LinAlg/SearchSpace.h', "const Scalar new_dir_thresh = std::sqrt(Eigen::NumTraits<Scalar>::epsilon());", "const Scalar new_dir_thresh = std::sqrt(Eigen::NumTraits<Scalar>::epsilon()) * new_vect.colwise().norm().maxCoeff();")], 'the other accepted form: threshold times a norm of the caller\'s block')
+M('davidson-restart-without-pairs', 'C15', 'counts-clamped-by-available-pairs',
+  [('JDSymEigsBase.h', "(m_search_space.size() > m_max_search_space_size) && (m_ritz_pairs.size() > 0);", "(m_search_space.size() > m_max_search_space_size);")], 'reverts fix F42')
+N('lobpcg-gram-pivots-tested', 'C17',
+  [('contrib/LOBPCGSolver.h', "        SparseComplexMatrix Upper_MBM = chol_MBM.matrixU().template cast<Complex>();\r\n", "        if (!(chol_MBM.vectorD().array() > Scalar(0)).all())\r\n        {\r\n            m_info = Eigen::NumericalIssue;\r\n            return Eigen::NumericalIssue;\r\n        }\r\n\r\n        SparseComplexMatrix Upper_MBM = chol_MBM.matrixU().template cast<Complex>();\r\n")], 'the repair that was tried for K5: the rule is silent on it (no KNOWN-FINDING line either)')
 
 # ----------------------------------------------------------------------------- F40
 M('lanczos-noise-test-against-the-current-step', 'C13,C07', 'noise-test-relative-to-the-whole-operator',
@@ -1105,6 +1121,6 @@ M('svd-operator-not-normalised', 'C16', 'svd-operator-normalised',
    ('contrib/PartialSVDSolver.h', "        m_cache /= m_scale;\n        y.noalias() = m_mat * m_cache;\n        y /= m_scale;\n", "        y.noalias() = m_mat * m_cache;\n")],
   'the operators apply A\'A as it is while the accessors still multiply by the scale')
 M('svd-singular-values-not-scaled-back', 'C16', 'clamps-and-fixed-rule',
-  [('contrib/PartialSVDSolver.h', ".cwiseSqrt() * m_op->scale();", ".cwiseSqrt();")], 'singular values of A / s')
+  [('contrib/PartialSVDSolver.h', "Vector svals = m_eigs->eigenvalues().cwiseMax(Scalar(0)).cwiseSqrt() * m_op->scale();", "Vector svals = m_eigs->eigenvalues().cwiseMax(Scalar(0)).cwiseSqrt();")], 'singular values of A / s')
 M('svd-operator-scaled-once', 'C16', 'svd-operator-normalised',
   [('contrib/PartialSVDSolver.h', "        y.noalias() = m_mat.transpose() * m_cache;\n        y /= m_scale;\n", "        y.noalias() = m_mat.transpose() * m_cache;\n")], 'A\'A / s: eigenvalues scale with ||A||')
